@@ -142,8 +142,15 @@ def c18_tables():
             continue
         if rx.fullmatch("/a/" + chr(cp)):
             seg.append(cp)
-    parts.append("/-- code points accepted as a path-segment character by ERROR_MESSAGE_REGEX (probed: fullmatch('/a/'+c)) -/\n"
-                 "def c18SegChars : List Nat := [" + ", ".join(str(c) for c in seg) + "]")
+    ranges = []
+    for cp in seg:
+        if ranges and ranges[-1][1] == cp - 1:
+            ranges[-1][1] = cp
+        else:
+            ranges.append([cp, cp])
+    parts.append("/-- code points accepted as a path-segment character by ERROR_MESSAGE_REGEX (probed: fullmatch('/a/'+c) over every "
+                 "code point), as inclusive ranges -/\n"
+                 "def c18SegRanges : List (Nat × Nat) := [" + ", ".join(f"({a}, {b})" for a, b in ranges) + "]")
     probes = {
         "two_segments_needed": rx.fullmatch("/ab") is None and rx.fullmatch("/a/b") is not None,
         "greedy_all_segments": (rx.search("x /a/b/c/d y") or [""])[0] == "/a/b/c/d",
